@@ -169,6 +169,17 @@ def matchAndConsume (m : Tok N → Bool) : P N (Option (Tok N)) := fun st =>
   | t :: ts => if m t then .ok (some t, { st with toks := ts, last := t.after }) else .ok (none, st)
   | [] => .ok (none, st)
 
+/-- `match_and_consume` with a predicate that may panic -/
+def matchAndConsumeP (m : Tok N → Outcome Unit Bool) : P N (Option (Tok N)) := fun st =>
+  match st.toks with
+  | t :: ts =>
+    match m t with
+    | .ok true => .ok (some t, { st with toks := ts, last := t.after })
+    | .ok false => .ok (none, st)
+    | .crash s => .crash s
+    | _ => .resource                      -- predicates only answer `ok` or `crash`
+  | [] => .ok (none, st)
+
 /-- `consume`: step past a token we *know* satisfies the predicate -/
 def consume (m : Tok N → Bool) : P N (Tok N) := fun st =>
   match st.toks with
@@ -367,22 +378,23 @@ def parseSimpleIdentifier : P N (Option (VarName × Range)) := do
   | some tok => pure (some (.simple tok.spelling, tok.range))
   | none => pure none
 
+/-- the predicate of `parse_capitalized_identifier`:
+    `tok.id.is_word() && tok.spelling.chars().next().unwrap().is_uppercase()` -/
+def isCapitalizedWord (tok : Tok N) : Outcome Unit Bool :=
+  if tok.kind == .word then
+    match tok.spelling with
+    | [] => .crash .parseCapFirstChar          -- `tok.spelling.chars().next().unwrap()`
+    | c :: _ => .ok (CharOps.isUppercase c)
+  else .ok false
+
 /-- one round of the `match_and_consume_while` in `parse_capitalized_identifier` -/
 def capitalizedLoopBody (rec : Rec N) : P N (List (Str × Range)) := do
-  let cur ← current
-  match cur with
+  let t ← matchAndConsumeP isCapitalizedWord
+  match t with
   | none => pure []
-  | some tok =>
-    if tok.kind == .word then
-      match tok.spelling with
-      | [] => P.crash .parseCapFirstChar          -- `tok.spelling.chars().next().unwrap()`
-      | c :: _ =>
-        if CharOps.isUppercase c then do
-          let _ ← advance
-          let rest ← rec.capitalizedLoop
-          pure ((tok.spelling, tok.range) :: rest)
-        else pure []
-    else pure []
+  | some tok => do
+    let rest ← rec.capitalizedLoop
+    pure ((tok.spelling, tok.range) :: rest)
 
 /-- `AccumulatedRange::acc` folded over the ranges -/
 def accRanges (rs : List Range) : Option Range :=
@@ -760,16 +772,22 @@ def parsePoeticNumberAssignmentRhs (rec : Rec N) : P N (PoeticRhs N) := do
     let l ← parsePoeticNumberLiteral rec
     pure (.lit l)
 
+/-- `get_literal_text_between(says, end)` / `get_literal_text_after(says)` -/
+def literalTextOf (src : Str) (saysToken : Tok N) (stop : Option (Tok N)) : Option Str :=
+  match stop with
+  | some stopTok => substr src saysToken.start stopTok.start   -- `get_literal_text_between`
+  | none => substr src saysToken.start (ulen src)              -- `get_literal_text_after`
+
+/-- … and the `unwrap` of that text -/
+def getLiteralText (saysToken : Tok N) (stop : Option (Tok N)) : P N Str := fun st =>
+  match literalTextOf st.src saysToken stop with
+  | some t => .ok (t, st)
+  | none => .crash .parsePoeticText
+
 /-- `parse_poetic_string_assignment_rhs` -/
 def parsePoeticStringAssignmentRhs (saysToken : Tok N) : P N Str := do
   let stop ← matchUntilNext .newline
-  let text ← (fun st =>
-    let t := match stop with
-      | some stopTok => substr st.src saysToken.start stopTok.start   -- `get_literal_text_between`
-      | none => substr st.src saysToken.start (ulen st.src)           -- `get_literal_text_after`
-    match t with
-    | some t => .ok (t, st)
-    | none => .crash .parsePoeticText : P N Str)
+  let text ← getLiteralText saysToken stop
   let afterSays ← P.ofOption .parsePoeticText (stripPrefix? saysToken.spelling text)
   match stripPrefix? [' '] afterSays with
   | some rhs => pure rhs
@@ -1086,6 +1104,15 @@ def parseFunctionBlock (rec : Rec N) : P N (Block N) := do
     let statements ← fnStmtLoopBody rec
     pure (.mk loc statements)
 
+/-- the rest of a round of the loop of `Parser::parse`, after `parse_block` -/
+def topLoopAfterBlock (rec : Rec N) (block : Block N) : P N (List (Block N)) := do
+  -- an `else` that no `if` claimed would otherwise never be consumed
+  let strayElse ← currentMatches (isKind .else_)
+  if strayElse then failWith .unexpectedToken
+  else do
+    let rest ← rec.topLoop
+    if block.isEmpty then pure rest else pure (block :: rest)
+
 /-- one round of the `while self.current().is_some()` loop of `Parser::parse` -/
 def topLoopBody (rec : Rec N) : P N (List (Block N)) := do
   let cur ← current
@@ -1093,12 +1120,7 @@ def topLoopBody (rec : Rec N) : P N (List (Block N)) := do
   | none => pure []
   | some _ => do
     let block ← parseBlock rec
-    -- an `else` that no `if` claimed would otherwise never be consumed
-    let strayElse ← currentMatches (isKind .else_)
-    if strayElse then failWith .unexpectedToken
-    else do
-      let rest ← rec.topLoop
-      if block.isEmpty then pure rest else pure (block :: rest)
+    topLoopAfterBlock rec block
 
 /-- `Parser::parse` -/
 def parseProgramBody (rec : Rec N) : P N (Program N) := do
